@@ -43,7 +43,7 @@ def run(ctx):
         return
     _sweep_stale()
     try:
-        for part, shards in (("hdr", 16), ("ofat", 16), ("prod", 16), ("blk", 16), ("bbox", 16), ("big", 4 if ctx.tier == "quick" else 6)):
+        for part, shards in (("hdr", 16), ("ofat", 16), ("blk", 16), ("big", 4 if ctx.tier == "quick" else 6), ("bbox", 16), ("prod", 16)):
             ctx.run_harness(exe, ["--part", part], shards=shards)
     finally:
         _sweep_stale()
